@@ -381,7 +381,9 @@ fn gate_strategy() -> impl Strategy<Value = GateCase> {
         .prop_flat_map(|(k, others, seeds, arity_delta, upd_col)| {
             let mut cols = vec![k];
             for (i, mut c) in others.into_iter().enumerate() {
-                c.name = format!("c{i}");
+                // every second schema names its first plain column "p.c1": a
+                // dotted identifier whose tail is the next column's name
+                c.name = if i == 0 && upd_col % 2 == 1 { "p.c1".to_string() } else { format!("c{i}") };
                 cols.push(c);
             }
             let cats: Vec<BoxedStrategy<String>> = cols
